@@ -205,8 +205,11 @@ func (fs *FS) OpenFile(name string, flag int, perm hackpadfs.FileMode) (afFile h
 	storeFile, err := files[0], errs[0]
 	switch {
 	case err == nil:
-		if storeFile.info().IsDir() && flag&(hackpadfs.FlagCreate|hackpadfs.FlagWriteOnly) != 0 {
-			// write-only or create on a directory isn't allowed on hackpadfs.OpenFile
+		if flag&hackpadfs.FlagCreate != 0 && flag&hackpadfs.FlagExclusive != 0 {
+			return nil, &hackpadfs.PathError{Op: "open", Path: name, Err: hackpadfs.ErrExist}
+		}
+		if storeFile.info().IsDir() && flag&(hackpadfs.FlagCreate|hackpadfs.FlagWriteOnly|hackpadfs.FlagReadWrite) != 0 {
+			// writing to or creating a directory isn't allowed on hackpadfs.OpenFile
 			return nil, &hackpadfs.PathError{Op: "open", Path: name, Err: hackpadfs.ErrIsDir}
 		}
 		storeFile.flag = flag
